@@ -71,6 +71,83 @@ def to_latlon(p):
     return np.degrees(np.arcsin(np.clip(p[..., 2] / r, -1, 1))), np.degrees(np.arctan2(p[..., 1], p[..., 0]))
 
 
+GEO_SCALES = [1.0, 57.29577951308232, 6371.0]
+
+
+def gen_geo(rng):
+    """radian / degree / km / arbitrary, equally likely"""
+    k = int(rng.randint(0, 4))
+    return GEO_SCALES[k] if k < 3 else float(np.round(rng.uniform(0.1, 1e4), 3))
+
+
+def gen_cloud(rng, n):
+    """lat-lon point cloud: global incl. boundary values, regional, or a small cluster"""
+    lat, lon = gen_latlon(rng, n)
+    k = rng.rand()
+    if k < 0.4:       # regional data set
+        lat = np.clip(lat * 0.1 + rng.uniform(-60, 60), -90, 90)
+        lon = lon * 0.02 + rng.uniform(-200, 200)
+    elif k < 0.55:    # small cluster (a few km)
+        lat = np.clip(lat * 1e-3 + rng.uniform(-80, 80), -90, 90)
+        lon = lon * 1e-4 + rng.uniform(-200, 200)
+    return lat, lon
+
+
+def gen_bin_args(rng, R, reach, combo=None):
+    """one of the four (bin_no given / None) x (max_dist given / None) combinations; max_dist is in the unit of R
+    (`reach` = a typical distance of the data in radians / metric units)"""
+    combo = int(rng.randint(0, 4)) if combo is None else combo
+    kw = {}
+    if combo & 1:
+        kw["bin_no"] = int(rng.randint(1, 13))
+    if combo & 2:
+        kw["max_dist"] = float(reach * R * rng.uniform(0.2, 1.5))
+    return kw
+
+
+def sturges_oracle(n):
+    return int(np.ceil(2 * np.log2(n) + 1))
+
+
+def box_gc_oracle(lat, lon, R):
+    """independent: great-circle length (unit of R) of the bounding-box diagonal of the points on the sphere of radius R;
+    second value: the arcsin argument (ill-conditioned next to 1)"""
+    P = R * unit(lat, lon)
+    x = np.linalg.norm(P.max(axis=0) - P.min(axis=0)) / (2 * R)
+    return 2 * R * np.arcsin(min(x, 1.0)), x
+
+
+def brute_bins(dd, df2, edges):
+    """Matheron estimate and counts per bin [e_k, e_k+1) from pair distances and squared differences"""
+    nb = max(len(edges) - 1, 0)
+    wg, wc = np.zeros(nb), np.zeros(nb, dtype=int)
+    for b in range(nb):
+        sel = (dd >= edges[b]) & (dd < edges[b + 1])
+        wc[b] = sel.sum()
+        wg[b] = 0.5 * df2[sel].mean() if wc[b] else 0.0
+    return wg, wc
+
+
+class KernelSpy:
+    """captures what vario_estimate hands to the isotropic kernel (a copy of bin_edges and pos)"""
+
+    def __init__(self):
+        self.got = None
+
+    def __enter__(self):
+        from gstools.variogram import variogram as V
+        self.V, self.orig = V, V._unstructured
+
+        def w(field, bin_edges, pos, **kw):
+            self.got = (np.array(bin_edges, dtype=float), np.array(pos, dtype=float), dict(kw))
+            return self.orig(field, bin_edges, pos, **kw)
+        V._unstructured = w
+        return self
+
+    def __exit__(self, *a):
+        self.V._unstructured = self.orig
+
+
 # ====================================================================== correspondence (tie B)
 def correspondence(ctx):
     import gstools as gs
@@ -182,6 +259,86 @@ def correspondence(ctx):
                 be = gs.standard_bins((blat, blon), latlon=True, geo_scale=R)
                 add(dict(op="ll_std_bins", R=f1(R), lat=fbits(blat), lon=fbits(blon)), "standard_bins-latlon",
                     [len(be) - 1, be.tolist()], 1e-12, R, dict(R=R, lat=blat.tolist(), lon=blon.tolist()))
+            # --- standard_bins with every argument combination: {pos given / None} x {bin_no given / None} x
+            #     {max_dist given / None} x {lat-lon / metric dim 1-3} x geo_scale radian / degree / km / arbitrary
+            for rep in range(4):
+                sll = bool(rng.rand() < 0.65)
+                sR = gen_geo(rng)
+                sdim = 2 if sll else int(rng.randint(1, 4))
+                sn = int(rng.randint(1, 30))
+                if sll:
+                    spos = np.array(gen_cloud(rng, sn))
+                    reach = 0.5
+                else:
+                    spos = np.round(rng.uniform(-50, 50, (sdim, sn)) * float(rng.choice([0.01, 1.0, 100.0])), 6)
+                    reach = 20.0 / sR      # max_dist is not a geographic length here: geo_scale must be ignored
+                skw = gen_bin_args(rng, sR, reach, combo=(4 * t + rep) % 4)
+                if rng.rand() < 0.04:
+                    skw["bin_no"] = 0
+                give_pos = bool(rng.rand() < 0.85)
+                if sll and give_pos and "max_dist" not in skw and 1 - 1e-6 < box_gc_oracle(spos[0], spos[1], sR)[1] < 1:
+                    discarded += 1
+                    continue
+                try:
+                    sreal = gs.standard_bins(tuple(spos) if give_pos else None, sdim, sll, geo_scale=sR, **skw).tolist()
+                except ValueError:
+                    sreal = "ValueError"
+                sop = dict(op="ll_std_bins2", latlon=sll, R=f1(sR), dim=sdim, P=sn)
+                if give_pos:
+                    sop["pos"] = fbits(spos)
+                if "bin_no" in skw:
+                    sop["bin_no"] = skw["bin_no"]
+                if "max_dist" in skw:
+                    sop["max_dist"] = f1(skw["max_dist"])
+                # a given max_dist involves no geometry (pure relative tolerance); the automatic lat-lon cut-off is a difference of
+                # coordinates of size R (absolute tolerance on that scale, as for the fully automatic case above)
+                add(sop, "standard_bins-args", sreal, 1e-13 if "max_dist" in skw else 1e-12, sR if (sll and "max_dist" not in skw) else 0.0,
+                    dict(latlon=sll, geo_scale=sR, dim=sdim, pos=spos.tolist() if give_pos else None, **skw))
+                sk = "standard_bins-args:" + ("latlon" if sll else "metric") + ":" + "+".join(sorted(skw) or ["auto"]) + \
+                    ":" + scale_name(sR) + ("" if give_pos else ":no-pos")
+                dist[sk] = dist.get(sk, 0) + 1
+            # --- vario_estimate: bin centres returned and edges handed to the kernel, {bin_edges given / None} x
+            #     {bin_no} x {max_dist} x geo_scale x {lat-lon / metric}
+            for rep in range(2):
+                vll = bool(rng.rand() < 0.8)
+                vR = gen_geo(rng)
+                vdim = 2 if vll else int(rng.randint(1, 4))
+                vn = int(rng.randint(3, 25))
+                if vll:
+                    vpos = np.array(gen_cloud(rng, vn))
+                    reach = 0.5
+                else:
+                    vpos = np.round(rng.uniform(-50, 50, (vdim, vn)), 6)
+                    reach = 20.0 / vR
+                vfield = np.round(rng.randn(vn), 3)
+                explicit = bool(rng.rand() < 0.2)
+                vkw = {} if explicit else gen_bin_args(rng, vR, reach, combo=(2 * t + rep) % 4)
+                vedges = None
+                if explicit:
+                    vedges = np.sort(np.concatenate([[0.0], rng.uniform(0, (np.pi if vll else 2 * reach) * vR, int(rng.randint(1, 8)))]))
+                if vll and not explicit and "max_dist" not in vkw and 1 - 1e-6 < box_gc_oracle(vpos[0], vpos[1], vR)[1] < 1:
+                    discarded += 1
+                    continue
+                with KernelSpy() as spy_v:
+                    try:
+                        vout = gs.vario_estimate(tuple(vpos), vfield, vedges, latlon=vll, geo_scale=vR, **vkw)
+                    except Exception as ex:
+                        vout = type(ex).__name__
+                vop = dict(op="vario_bins_full", F=1, P=vn, dim=vdim, fmask=[0] * vn, pos=fbits(vpos), latlon=vll, geo_scale=f1(vR))
+                if explicit:
+                    vop["bins"] = fbits(vedges)
+                if "bin_no" in vkw:
+                    vop["bin_no"] = vkw["bin_no"]
+                if "max_dist" in vkw:
+                    vop["max_dist"] = f1(vkw["max_dist"])
+                vreal = vout if isinstance(vout, str) or spy_v.got is None else [np.asarray(vout[0]).tolist(), spy_v.got[0].tolist()]
+                vgeom = vll and not explicit and "max_dist" not in vkw
+                add(vop, "vario-bins" + ("-explicit" if explicit else "-auto"), vreal,
+                    0.0 if explicit else (1e-12 if "max_dist" not in vkw else 1e-13), (vR, 1.0) if vgeom else (0.0, 0.0),
+                    dict(latlon=vll, geo_scale=vR, pos=vpos.tolist(), bin_edges=None if vedges is None else vedges.tolist(), **vkw))
+                vk = "vario-bins:" + ("latlon" if vll else "metric") + ":" + ("explicit" if explicit else "+".join(sorted(vkw) or ["auto"])) + \
+                    ":" + scale_name(vR)
+                dist[vk] = dist.get(vk, 0) + 1
             # --- kriging assembly: covariance block of the matrix and right-hand side handed to the kernel
             import gstools.krige.base as KB
             ktemp = bool(rng.rand() < 0.5)
@@ -259,6 +416,20 @@ def correspondence(ctx):
         elif kind == "standard_bins-latlon":
             lean = [r[0], dec(r[1]).tolist()]
             ok = lean[0] == real[0] and close(lean[1], real[1], tol, scale)
+        elif kind == "standard_bins-args":
+            lean = r if isinstance(r, str) else dec(r).tolist()
+            if isinstance(real, str) or isinstance(lean, str):
+                ok = real == lean
+            else:
+                ok = len(lean) == len(real) and close(lean, real, tol, scale)
+        elif kind.startswith("vario-bins"):
+            lean = r["raised"] if "raised" in r else [dec(r["centres"]).tolist(), dec(r["kernel"]).tolist()]
+            if isinstance(real, str) or isinstance(lean, str):
+                ok = real == lean
+            elif tol == 0.0:
+                ok = np.array_equal(lean[0], real[0]) and np.array_equal(lean[1], real[1])
+            else:
+                ok = close(lean[0], real[0], tol, scale[0]) and close(lean[1], real[1], tol, scale[1])
         else:
             lean = dec(r)
             ok = close(np.ravel(lean), np.ravel(np.asarray(real, dtype=float)), tol, scale)
@@ -276,6 +447,10 @@ def correspondence(ctx):
                     "real gstools function / CovModel method vs the Lean model on Float at 1e-12..1e-13 (exact for constructor state); "
                     "distinct = different (kind, input); antipodal haversine pairs and bounding boxes with arcsin argument in (1-1e-6, 1) are discarded",
             "samples": samples, "disagreements": disagreements[:10], "distribution": dist}
+
+
+def scale_name(R):
+    return {1.0: "radian", 57.29577951308232: "degree", 6371.0: "km"}.get(R, "arbitrary")
 
 
 def json_key(case):
